@@ -10,21 +10,27 @@ VARIABLES queued,     \* bytes handed to send()/send_fast() while the worker was
           closes,     \* number of close notifications
           shutp,      \* shutdown(send) was requested: flush, then shut the sending direction down
           shutwr,     \* number of SHUT_WR calls made on the socket (0 or 1 = done; after it the socket refuses data)
+          connecting, \* worker._connecting: the connection is still being set up; the first time the loop finds the
+                      \* socket writable the connect handler runs (and may queue data) before anything is written
           nsent, last, hist
-svars == <<queued, accepted, buf, closed, closes, shutp, shutwr, nsent>>
+svars == <<queued, accepted, buf, closed, closes, shutp, shutwr, connecting, nsent>>
 vars == <<svars, last, hist>>
 viewE == svars
 Msg(n) == [i \in 1..MsgLen |-> 10 * n + i]
 \* the harness's close handler tries to send one more byte (send_fast) when it is told about the
 \* close: on a closed worker that byte is only buffered, never written, and nothing is notified again
 Late == <<90>>
+\* ... and its connect handler greets the peer with one byte (send) when the connection is established
+Greet == <<80>>
+Yes == TRUE
+StartConnecting == FALSE      \* (the *_WC configs override this definition)
 Init == /\ queued = <<>> /\ accepted = <<>> /\ buf = <<>> /\ closed = FALSE /\ closes = 0 /\ nsent = 0
-        /\ shutp = FALSE /\ shutwr = 0
+        /\ shutp = FALSE /\ shutwr = 0 /\ connecting = StartConnecting
         /\ last = [a |-> "Init", args |-> [x |-> 0], exp |-> [x |-> 0]] /\ hist = <<>>
 Log(a, args) ==
   LET e == [a |-> a, args |-> args,
             exp |-> [accepted |-> accepted', buf |-> buf', closed |-> closed', closes |-> closes',
-                     shutwr |-> shutwr']] IN
+                     shutwr |-> shutwr', connecting |-> connecting']] IN
   /\ last' = e /\ hist' = IF KeepHist THEN Append(hist, e) ELSE hist
 OutsOpen(n) == {[k |-> "full", n |-> n], [k |-> "eagain", n |-> 0], [k |-> "fatal", n |-> 0]}
                \cup {[k |-> "part", n |-> j] : j \in {1, n - 1} \cap 1..(n - 1)}
@@ -36,14 +42,14 @@ Send ==
   /\ nsent < MaxMsgs /\ nsent' = nsent + 1
   /\ buf' = buf \o Msg(nsent + 1)
   /\ queued' = IF closed THEN queued ELSE queued \o Msg(nsent + 1)
-  /\ UNCHANGED <<accepted, closed, closes, shutp, shutwr>>
+  /\ UNCHANGED <<accepted, closed, closes, shutp, shutwr, connecting>>
   /\ Log("Send", [n |-> nsent + 1])
 
 \* send_fast(): try the socket at once when nothing is buffered
 SendFast(o) ==
   /\ nsent < MaxMsgs /\ nsent' = nsent + 1
   /\ LET data == Msg(nsent + 1) IN
-     IF buf = <<>> /\ ~closed THEN
+     IF buf = <<>> /\ ~closed /\ ~connecting THEN
        /\ o \in Outs(MsgLen)
        /\ queued' = queued \o data
        /\ CASE o.k = "full" -> accepted' = accepted \o data /\ UNCHANGED <<buf, closed, closes>>
@@ -56,27 +62,32 @@ SendFast(o) ==
        /\ buf' = buf \o data
        /\ queued' = IF closed THEN queued ELSE queued \o data
        /\ UNCHANGED <<accepted, closed, closes>>
-  /\ UNCHANGED <<shutp, shutwr>>
+  /\ UNCHANGED <<shutp, shutwr, connecting>>
   /\ Log("SendFast", [n |-> nsent + 1, o |-> o])
 
 \* the I/O loop found the socket writable: _do_send
 DoSend(o) ==
-  /\ ~closed /\ buf # <<>>
-  /\ o \in Outs(Len(buf))
-  /\ CASE o.k = "full" -> /\ accepted' = accepted \o buf /\ buf' = <<>> /\ UNCHANGED <<closed, closes>>
-                          \* flush-then-shutdown: only once EVERYTHING queued has been accepted
-                          /\ shutwr' = IF shutp THEN shutwr + 1 ELSE shutwr
-       [] o.k = "part" -> /\ accepted' = accepted \o SubSeq(buf, 1, o.n)
-                          /\ buf' = SubSeq(buf, o.n + 1, Len(buf)) /\ UNCHANGED <<closed, closes, shutwr>>
-       [] o.k = "eagain" -> UNCHANGED <<accepted, buf, closed, closes, shutwr>>
-       [] o.k = "fatal" -> closed' = TRUE /\ closes' = closes + 1 /\ buf' = buf \o Late /\ UNCHANGED <<accepted, shutwr>>
-  /\ UNCHANGED <<queued, nsent, shutp>>
+  /\ ~closed /\ (buf # <<>> \/ connecting)
+  \* a worker that was still connecting is connected now: its connect handler runs first, and what it sends is
+  \* queued behind what was queued before - all of it is then written in order
+  /\ LET b == IF connecting THEN buf \o Greet ELSE buf IN
+     /\ o \in Outs(Len(b))
+     /\ connecting' = FALSE
+     /\ queued' = IF connecting THEN queued \o Greet ELSE queued
+     /\ CASE o.k = "full" -> /\ accepted' = accepted \o b /\ buf' = <<>> /\ UNCHANGED <<closed, closes>>
+                             \* flush-then-shutdown: only once EVERYTHING queued has been accepted
+                             /\ shutwr' = IF shutp THEN shutwr + 1 ELSE shutwr
+          [] o.k = "part" -> /\ accepted' = accepted \o SubSeq(b, 1, o.n)
+                             /\ buf' = SubSeq(b, o.n + 1, Len(b)) /\ UNCHANGED <<closed, closes, shutwr>>
+          [] o.k = "eagain" -> buf' = b /\ UNCHANGED <<accepted, closed, closes, shutwr>>
+          [] o.k = "fatal" -> closed' = TRUE /\ closes' = closes + 1 /\ buf' = b \o Late /\ UNCHANGED <<accepted, shutwr>>
+  /\ UNCHANGED <<nsent, shutp>>
   /\ Log("DoSend", [o |-> o])
 
 \* shutdown(): "flush what is queued, then shut the sending direction down" (the switch-side connection's close())
 Shutdown ==
   /\ ~shutp /\ ~closed /\ shutp' = TRUE
-  /\ UNCHANGED <<queued, accepted, buf, closed, closes, shutwr, nsent>>
+  /\ UNCHANGED <<queued, accepted, buf, closed, closes, shutwr, connecting, nsent>>
   /\ Log("Shutdown", [x |-> 0])
 
 CloseAgain ==     \* close() on a closed worker is a no-op
@@ -92,7 +103,7 @@ DeadSilent == [][closed => accepted' = accepted]_vars
 ClosedOnce == closes <= 1 /\ (closed <=> closes = 1)
 \* the sending direction is shut down at most once, only on request, and never while queued bytes are still unwritten
 ShutCleanI == shutwr <= 1 /\ (shutwr > 0 => shutp)
-ShutCleanP == [][shutwr' # shutwr => (buf' = <<>> /\ accepted' = queued)]_vars
+ShutCleanP == [][shutwr' # shutwr => (buf' = <<>> /\ accepted' = queued')]_vars
 Export == (Len(hist) = D) => PrintT(<<"H", ToJson(hist)>>)
 ExportT == PrintT(<<"T", ToJson(hist')>>)
 =============================================================================
